@@ -124,7 +124,7 @@ def usesEnv : Kind → Bool
   | .metaReader | .dirReader | .dataReader | .xattrReader => true
   | _ => false
 
-def step (D : Kind → CopyDesc) (w : World) (line : String) : World × String :=
+def stepLive (D : Kind → CopyDesc) (w : World) (line : String) : World × String :=
   match words line with
   | "scenario" :: _tag :: kname :: _ =>
     match Kind.ofName (if kname = "comp" then "gzip" else kname) with
@@ -212,6 +212,14 @@ def step (D : Kind → CopyDesc) (w : World) (line : String) : World × String :
       ({ w with h := h }, match h.crash with | some cr => s!"crash {cr.name}" | none => "op")
     | none => (w, if (targetIx t).isSome then "no-object" else "bad-op")
   | _ => (w, "bad-op")
+
+/-- a crashed heap is absorbing: every later line up to `end` answers with the crash -/
+def step (D : Kind → CopyDesc) (w : World) (line : String) : World × String :=
+  match w.h.crash, words line with
+  | some cr, "scenario" :: _ => let _ := cr; stepLive D w line
+  | some cr, ["end"] => let _ := cr; stepLive D w line
+  | some cr, _ => (w, s!"crash {cr.name}")
+  | none, _ => stepLive D w line
 
 def run (args : List String) : IO Unit := do
   let out ← IO.getStdout
